@@ -857,3 +857,18 @@ _ADD7 = {
 for _pid, _items in _ADD7.items():
     for _field, _txt in _items:
         CLAIMED[_pid][_field] += " " + _txt
+
+_ADD8 = {
+    "C09": [("text", "And the policy a link enforces is, field by field, the advertised one on every path that (re)builds "
+                     "it: updatechanpolicy (the real localchans.Manager.UpdatePolicy -> switch -> link; partial updates, "
+                     "several channels, rejected schemas; enumerated field x raise/lower x targeting histories) and link "
+                     "creation from our own graph edge at start-up/reconnect (the real peer.loadActiveChannels/addLink); "
+                     "boundary HTLCs are judged against the ADVERTISED values by the python oracle and the Coq model."),
+            ("note", "Link-creation stage scaffolding: an empty ChainArbitrator gets one blank watcher set by reflection; "
+                     "the fixture's random channel reserve is replaced by 1000 sat."),
+            ("technique", "+ policy-provenance comparison (advertised vs handed vs installed) on the real Manager, "
+                          "switch, link and peer")],
+}
+for _pid, _items in _ADD8.items():
+    for _field, _txt in _items:
+        CLAIMED[_pid][_field] += " " + _txt
